@@ -29,6 +29,9 @@ LAYOUTS = {
     "L1": dict(files={"a": "a.txt", "b": "s/b.txt"}, dirs={"s": "s"}, dirof={"a": ".", "b": "s"}),
     "L2": dict(files={"a": "c/a.txt", "b": "s/b.txt"}, dirs={"c": "c", "s": "s"}, dirof={"a": "c", "b": "s"}),
     # five files, one zip each (folder of zips with several unzip workers)
+    # five flat files (kappadata.copying.create_zips_folder only accepts files)
+    "L5f": dict(files={"a": "a.txt", "b": "b.txt", "c": "c.txt", "d": "d.txt", "e": "e.txt"}, dirs={},
+                dirof={"a": ".", "b": ".", "c": ".", "d": ".", "e": "."}),
     "L5": dict(files={"a": "a.txt", "b": "s/b.txt", "c": "c.txt", "d": "d.txt", "e": "e.txt"}, dirs={"s": "s"},
                dirof={"a": ".", "b": "s", "c": ".", "d": ".", "e": "."}),
 }
@@ -48,10 +51,15 @@ def scenarios(tier):
     for nw in ((0, 2, 3) if tier == "quick" else (0, 1, 2, 3, 4)):
         res.append(dict(func="folder", fmt="zips", rel=None, init="absent", order="startfirst", layout="L5", nw=nw,
                         depth=(1 if nw <= 1 else 0)))
+    # round trip through the library's own zip creation
+    for func, layout in (("folder", "L5f"), ("imagefolder", "L2")):
+        for nw in ((0,) if tier == "quick" else (0, 2)):
+            res.append(dict(func=func, fmt="zips", rel=None, init="absent", order="startfirst", layout=layout, nw=nw,
+                            depth=(1 if nw <= 1 else 0), via="create_zips"))
     if tier == "quick":
         keep = []
         for s in res:
-            if s["layout"] == "L5":
+            if s["layout"] in ("L5", "L5f") or s.get("via"):
                 keep.append(s)
                 continue
             if s["init"] != "absent":
@@ -60,6 +68,8 @@ def scenarios(tier):
                     continue
             if s["func"] == "imagefolder" and s["order"] == "startlast":
                 continue
+            if s["func"] == "imagefolder":
+                s = dict(s, depth=1)  # quick: the twin gets single deaths, the folder function double deaths
             keep.append(s)
         res = keep
     return res
@@ -82,6 +92,21 @@ def build_source(root, scn):
         with zipfile.ZipFile(src + ".zip", "w") as z:
             for f, rp in lay["files"].items():
                 z.writestr(rp, CONTENT[f])
+    elif scn.get("via") == "create_zips":
+        # the source is produced by the library's own zip creation from a raw folder: create o copy = identity
+        from pathlib import Path
+        sys.path.insert(0, core.REPO)
+        from kappadata.copying.create_zips import create_zips_folder, create_zips_imagefolder
+        raw = os.path.join(root, "raw_for_zips")
+        for f, rp in lay["files"].items():
+            p = os.path.join(raw, rp)
+            os.makedirs(os.path.dirname(p), exist_ok=True)
+            with open(p, "wb") as fh:
+                fh.write(CONTENT[f])
+        if scn["func"] == "imagefolder":
+            create_zips_imagefolder(Path(raw), Path(src))
+        else:
+            create_zips_folder(Path(raw), Path(src), batch_size=2)
     else:
         os.makedirs(src, exist_ok=True)
         if scn["func"] == "imagefolder":
@@ -365,7 +390,8 @@ def validate(traces, layout, mode, proto="v1", jobs=6):
 
 
 def scn_key(cfg):
-    return (f"{cfg['func']}:{cfg['fmt']}:rel={cfg['rel'] or '-'}:init={cfg['init_kind']}:order={cfg['order']}")
+    via = ":via=" + cfg["via"] if cfg.get("via") else ""
+    return (f"{cfg['func']}:{cfg['fmt']}{via}:rel={cfg['rel'] or '-'}:init={cfg['init_kind']}:order={cfg['order']}")
 
 
 def crash_key(t):
